@@ -367,8 +367,8 @@ def check_all(ctx, workspaces, rng, built=None, chunk=30, hint_k=6):
                 bad("analysis", "workspace files: implementation %r, model %r" % (sorted(keys), files))
                 continue
             res["compared"] += 1
-            if a["bad"] or not a["sm_ok"]:
-                bad("analysis", "model: indexer flag bad=%s, joined symbol map consistent=%s" % (a["bad"], a["sm_ok"]))
+            if a["bad"] or not a["sm_ok"] or not a["closed"]:
+                bad("analysis", "model: indexer flag bad=%s, joined symbol map consistent=%s, id-closed=%s" % (a["bad"], a["sm_ok"], a["closed"]))
             texts = {norm_path(p): t for p, t in w["files"].items()}
             for k, f in enumerate(files):
                 p = keys[f]
